@@ -79,7 +79,21 @@ func runC13(c writeCase) (bool, []string, error) {
 	if err != nil {
 		return false, append(labels, "refused"), nil
 	}
+	// the schema is the caller's value: building a codec leaves it as it was, and a
+	// second codec built from it is as good as the first
+	if d := fromLib(lib).Diff(c.Schema, ""); d != "" {
+		return nt, labels, fmt.Errorf("building a codec changed the caller's schema value: %s", d)
+	}
+	first := codec
+	second, err := lib.Codec(reflect.New(typ).Elem().Interface())
+	if err != nil {
+		return nt, labels, fmt.Errorf("a second codec from the same schema value is refused: %v", err)
+	}
 	for i, vs := range c.Values {
+		codec = first
+		if i%2 == 1 {
+			codec = second
+		}
 		in := spec.New(c.Target, vs)
 		wb := avro.NewWriteBuf(nil)
 		codec.Write(wb, in.UnsafePointer())
